@@ -35,13 +35,13 @@ def walker_enqueue(F, R, bodies, tag="C15-a", pid="C15"):
     pushes = []
     for b in bodies:
         for n in b["_nodes"]:
-            if n.get("k") == "MethodCall" and n["name"] in ("push_front", "push_back", "push") and (expr_text(n["recv"]).endswith("visiting")):
+            if n.get("k") == "MethodCall" and n["name"] in ("push_front", "push_back", "push") and (peel(n["recv"]).get("field") == "visiting" or (peel(n["recv"]).get("res") == "local" and tyc(F, n["recv"], "VecDeque<&"))):
                 pushes.append(n)
     R.floor("C15-a work-list pushes", len(pushes), 5)
     for p in pushes:
         key = peel_value(p["args"][0])
         g = guards_at(F, p)
-        dom = any(x.kind == "cond" and x.pol and x.node.get("k") == "MethodCall" and x.node["name"] == "insert" and expr_text(x.node["recv"]).endswith("seen") and peel_value(x.node["args"][0]).get("lid") == key.get("lid") for x in g)
+        dom = any(x.kind == "cond" and x.pol and x.node.get("k") == "MethodCall" and x.node["name"] == "insert" and (peel(x.node["recv"]).get("field") == "seen" or tyc(F, x.node["recv"], "HashSet<&")) and peel_value(x.node["args"][0]).get("lid") == key.get("lid") for x in g)
         if dom:
             R.ob(tag, "push of `%s` in %s is dominated by a successful seen.insert" % (expr_text(p["args"][0]), p["_top"]["path"].split("::")[-1]), True)
             continue
@@ -49,8 +49,8 @@ def walker_enqueue(F, R, bodies, tag="C15-a", pid="C15"):
         blk = p
         while blk.get("_p") is not None and blk.get("k") != "Block":
             blk = blk["_p"]
-        ins = [n for n in walk(blk) if n.get("k") == "MethodCall" and n["name"] == "insert" and expr_text(n["recv"]).endswith("seen") and peel_value(n["args"][0]).get("lid") == key.get("lid") and may_reach(F, n, p)]
-        is_root_loop = any(a.get("k") == "For" and expr_text(a["iter"]) == "roots" for a in k_ancestors(p))
+        ins = [n for n in walk(blk) if n.get("k") == "MethodCall" and n["name"] == "insert" and (peel(n["recv"]).get("field") == "seen" or tyc(F, n["recv"], "HashSet<&")) and peel_value(n["args"][0]).get("lid") == key.get("lid") and may_reach(F, n, p)]
+        is_root_loop = any(a.get("k") == "For" and peel(a["iter"]).get("lid") == p["_top"]["body"]["params"][1].get("lid") for a in k_ancestors(p)) if len(p["_top"]["body"]["params"]) > 1 else False
         R.ob(tag, "root seeding: insert precedes push (roots are a set by contract)", bool(ins) and is_root_loop,
              "`visiting.%s(%s)` is not dominated by a successful `seen.insert(%s)`: a specifier reachable along two edges is yielded twice" % (p["name"], expr_text(p["args"][0]), expr_text(p["args"][0])),
              where(p), key=pid + "|" + tag + "|%s|%s" % (p["_top"]["path"], expr_text(p["args"][0])))
@@ -60,7 +60,7 @@ def walker_enqueue(F, R, bodies, tag="C15-a", pid="C15"):
     inserts = []
     for b in bodies:
         for n in b["_nodes"]:
-            if n.get("k") == "MethodCall" and n["name"] == "insert" and expr_text(n["recv"]).endswith("seen"):
+            if n.get("k") == "MethodCall" and n["name"] == "insert" and (peel(n["recv"]).get("field") == "seen" or (peel(n["recv"]).get("res") == "local" and tyc(F, n["recv"], "HashSet<&"))):
                 inserts.append(n)
     R.floor("C15-a seen.insert sites", len(inserts), 5)
     for ins in inserts:
@@ -71,7 +71,7 @@ def walker_enqueue(F, R, bodies, tag="C15-a", pid="C15"):
                 iff = a
                 break
         def is_push(n, key=key):
-            return n.get("k") == "MethodCall" and n["name"] in ("push_front", "push_back") and expr_text(n["recv"]).endswith("visiting") and peel_value(n["args"][0]).get("lid") == key.get("lid")
+            return n.get("k") == "MethodCall" and n["name"] in ("push_front", "push_back") and (peel(n["recv"]).get("field") == "visiting" or tyc(F, n["recv"], "VecDeque<&")) and peel_value(n["args"][0]).get("lid") == key.get("lid")
         if iff is None:
             # unconditional insert (root seeding): the push must follow in the same block
             blk = ins
@@ -106,7 +106,7 @@ def run(F, R, tier):
     n_code_push = 0
     for b in bodies:
         for n in b["_nodes"]:
-            if n.get("k") == "MethodCall" and n["name"] == "push" and expr_text(n["recv"]) == "resolutions":
+            if n.get("k") == "MethodCall" and n["name"] == "push" and tyc(F, n["recv"], "Vec<&graph::Resolution>"):
                 a = peel_value(n["args"][0])
                 if a.get("k") == "Field" and a["field"] == "maybe_type":
                     n_type_push += 1
@@ -117,14 +117,14 @@ def run(F, R, tier):
                 elif a.get("k") == "Field" and a["field"] == "maybe_code":
                     n_code_push += 1
                     g = guards_at(F, n)
-                    conds = [x for x in g if x.kind == "cond" and "include_types" in expr_text(x.node)]
+                    conds = [x for x in g if x.kind == "cond" and mentions_call(x.node, ["GraphKind::include_types"])]
                     R.ob("C15-b", "code resolution is always followed [%s]" % b["path"].split("::")[-1], not conds,
                          "`maybe_code` is only followed under a graph-kind condition", where(n))
     R.floor("C15-b type-resolution pushes", n_type_push, 2)
     R.floor("C15-b code-resolution pushes", n_code_push, 2)
     amd = F.body(IT + "::analyze_module_deps")
     for n in amd["_nodes"]:
-        if n.get("k") == "MethodCall" and n["name"] == "push" and expr_text(n["recv"]) == "resolutions":
+        if n.get("k") == "MethodCall" and n["name"] == "push" and tyc(F, n["recv"], "Vec<&graph::Resolution>"):
             g = guards_at(F, n)
             ok = False
             for x in g:
@@ -146,22 +146,22 @@ def run(F, R, tier):
     conts = [n for n in nx["_nodes"] if n["k"] == "Continue"]
     for c in conts:
         g = guards_at(F, c)
-        ok = any(x.kind == "cond" and x.pol and "TypesOnly" in expr_text(x.node) for x in g)
+        ok = any(x.kind == "cond" and x.pol and any(ctor_of(y) == "graph::GraphKind::TypesOnly" for y in walk(x.node)) for x in g)
         R.ob("C15-b", "a module is skipped only in types-only walks", ok, "`continue` (skip yielding a module) is not guarded by kind == TypesOnly", where(c))
     # fast check deps
     fc = [n for n in nx["_nodes"] if callee_matches(n, ["Module::dependencies_prefer_fast_check"])]
     R.floor("C15-b fast-check dependency selection", len(fc), 1)
     for n in fc:
         g = expand_local_guards(F, guards_at(F, n), nx)
-        ok = any(x.kind == "cond" and x.pol and expr_text(x.node).endswith("prefer_fast_check_graph") for x in g) \
+        ok = any(x.kind == "cond" and x.pol and peel(x.node).get("field") == "prefer_fast_check_graph" for x in g) \
             and any(x.kind == "cond" and x.pol and (x.node.get("fn") or "").endswith("GraphKind::include_types") for x in g) \
             and any(x.kind == "cond" and x.pol and (x.node.get("fn") or "").endswith("is_checkable") for x in g)
         R.ob("C15-b", "fast-check dependencies only when requested, types are included and the module is type-checkable", ok,
              "dependencies_prefer_fast_check is selected without `kind.include_types() && is_checkable(..) && prefer_fast_check_graph`: a code-only walk would follow the pruned fast-check dependency set and miss implementation-only imports", where(n))
 
     # ---------------- C15-c ------------------------------------------------
-    ms = [n for n in nx["_nodes"] if n["k"] == "Match" and "previous_module" in expr_text(n["scrut"])]
-    if R.ob("C15-c", "walker state machine found", len(ms) == 1 and "take" in expr_text(ms[0]["scrut"]), "next() no longer matches on self.previous_module.take()", nx["file"]):
+    ms = [n for n in nx["_nodes"] if n["k"] == "Match" and mentions_field(n["scrut"], "previous_module")]
+    if R.ob("C15-c", "walker state machine found", len(ms) == 1 and any(y.get("k") == "MethodCall" and y["name"] == "take" for y in walk(ms[0]["scrut"])), "next() no longer matches on self.previous_module.take()", nx["file"]):
         for arm in ms[0]["arms"]:
             pt = pat_text(arm["pat"])
             calls = [n for n in walk(arm["body"]) if callee_matches(n, [IT + "::analyze_module_deps"])]
@@ -177,7 +177,7 @@ def run(F, R, tier):
                 eff = [n for n in walk(arm["body"]) if n.get("k") == "MethodCall"]
                 R.ob("C15-c", "previous error / none: nothing is enqueued", not eff, "Err/None arm has effects", where(arm["body"]))
     sk = F.body(IT + "::skip_previous_dependencies")
-    asg = [n for n in sk["_nodes"] if n["k"] == "Assign" and expr_text(n["l"]).endswith("previous_module") and ctor_of(peel(n["r"])) == "std::option::Option::None"]
+    asg = [n for n in sk["_nodes"] if n["k"] == "Assign" and peel(n["l"]).get("field") == "previous_module" and ctor_of(peel(n["r"])) == "std::option::Option::None"]
     R.ob("C15-c", "skip_previous_dependencies clears the previous module", len(asg) == 1, "skip_previous_dependencies no longer sets previous_module = None", sk["file"])
 
     # ---------------- C15-d ------------------------------------------------
@@ -200,12 +200,12 @@ def run(F, R, tier):
             ca = ca or c
         allv = {v["path"] for v in F.adt("graph::ModuleSlot")["variants"]}
         R.ob("C15-d", "every slot kind is handled explicitly", covered >= allv and not ca, "catch-all or missing slot kind %s" % sorted(allv - covered), where(lm[0]))
-    pops = [n for n in nx["_nodes"] if n.get("k") == "MethodCall" and n["name"] == "pop_front" and expr_text(n["recv"]).endswith("visiting")]
+    pops = [n for n in nx["_nodes"] if n.get("k") == "MethodCall" and n["name"] == "pop_front" and peel(n["recv"]).get("field") == "visiting"]
     R.ob("C15-d", "entries are taken from the work list", len(pops) == 1, "next() does not pop exactly one work-list entry per iteration", nx["file"])
 
     # ---------------- C15-e ------------------------------------------------
     en = F.body("<graph::ModuleGraphErrorIterator as std::iter::Iterator>::next")
-    src = [n for n in en["_nodes"] if n.get("k") == "MethodCall" and n["name"] == "next" and expr_text(n["recv"]).endswith("iterator")]
+    src = [n for n in en["_nodes"] if n.get("k") == "MethodCall" and n["name"] == "next" and peel(n["recv"]).get("field") == "iterator"]
     R.ob("C15-e", "error listing pulls entries from the walk iterator", len(src) == 1, "ModuleGraphErrorIterator::next does not call self.iterator.next() exactly once per round", en["file"])
     direct = [n for n in en["_nodes"] if n.get("k") == "MethodCall" and n["name"] in ("values", "iter", "keys", "get", "get_key_value") and peel(n["recv"]).get("field") in ("module_slots",)]
     R.ob("C15-e", "error listing never reads module_slots directly", not direct, "ModuleGraphErrorIterator::next reads module_slots itself: its errors would not be those of the visited entries", en["file"])
